@@ -231,7 +231,7 @@ class Models:
         R(r"^core::clone::Clone::clone$", lambda ci: ci.deref(ci.args[0]), "Clone::clone yields an equal value")
         R(r"^core::num::<impl u\d+>::wrapping_(add|sub|mul)$", m_wrapping, "uN::wrapping_* : arithmetic mod 2^N")
         R(r"^core::num::<impl u\d+>::wrapping_neg$", lambda ci: mk_int(wrap(-ci.args[0][1], ci.args[0][2]), ci.args[0][2]) if ci.args[0][0] == "int" else ("app", "Neg", (ci.args[0],)), "wrapping_neg")
-        R(r"^core::num::<impl u(\d+|size)>::(div_ceil|next_multiple_of|saturating_add|saturating_sub|min|max|pow|checked_add|checked_mul|is_multiple_of)$", lambda ci: ("app", ci.name.split("::")[-1], tuple(ci.args)), "integer helper (uninterpreted, canonicalised by A7)")
+        R(r"^core::num::<impl u(\d+|size)>::(div_ceil|next_multiple_of|saturating_add|saturating_sub|min|max|pow|checked_add|checked_mul|is_multiple_of)$", m_int_helper, "integer helper (uninterpreted, canonicalised by A7); next_multiple_of / pow can overflow and div_ceil / next_multiple_of divide: the panic obligations are emitted for A4")
         R(r"^core::num::<impl u(16|32|64)>::to_(be|le)_bytes$", m_to_bytes, "uN::to_be_bytes / to_le_bytes: the value's bytes, most / least significant first")
         R(r"^core::num::<impl u(16|32|64)>::from_(be|le)_bytes$", lambda ci: None, "from_*_bytes (unmodelled)")
         R(r"^core::convert::num::<impl core::convert::From<u\d+> for [ui](\d+|size)>::from$", m_widen, "lossless integer widening")
@@ -1184,6 +1184,24 @@ def per_item_group(ci, it):
                 return None
         return (out, src)
     return None
+
+
+def m_int_helper(ci):
+    op = ci.name.split("::")[-1]
+    m = re.search(r"impl (u(?:\d+|size))>", ci.name)
+    ty = m.group(1) if m else "usize"
+    args = tuple(ci.args)
+    if op in ("next_multiple_of", "div_ceil") and len(args) == 2:
+        x, k = args
+        if not (k[0] == "int" and k[1] > 0):
+            ci.st.emit(("assert_undecided", "DivisionByZero", ("app", "Ne", (k, mk_int(0, ty))), ci.w))
+        if op == "next_multiple_of":
+            # std: panics on overflow when overflow checks are on (debug / test profile): x + (k - 1) must fit the type
+            km1 = mk_int(k[1] - 1, ty) if k[0] == "int" else ("app", "Sub", (k, mk_int(1, ty)))
+            ci.st.emit(("assert_undecided", "Overflow(Add)", ("app", "AddOvf", (x if term_type(x) or x[0] != "app" else ("app", "cast:" + ty, (x,)), km1)), ci.w))
+    if op == "pow" and len(args) == 2:
+        ci.st.emit(("assert_undecided", "Overflow(Mul)", ("app", "MulOvf", (("app", "pow", args), mk_int(1, ty))), ci.w))
+    return ("app", op, args)
 
 
 def m_fold(ci):
